@@ -1,3 +1,3 @@
-import Driver.Loop
-/-! Driver for group `args`: replace `[]` by this group's handlers. -/
-def main : IO Unit := TF.Driver.run []
+import Driver.Args
+/-! Driver for group `args` (C12). -/
+def main : IO Unit := TF.Driver.run [TF.Driver.handleArgs]
